@@ -164,15 +164,15 @@ Lemma op_mod_i_tr : Trunc_rem in_i32 op_mod_i.
 Proof. intros n d H Hd. apply tr_of_val; [assumption|apply op_mod_i_val; assumption]. Qed.
 
 (* int32_t operator%(uint32_t), int16_t operator%(uint16_t): the return type is narrower than the divisor's *)
-Lemma op_mod_u_trw : Trunc_rem_when in_u32 in_i32 op_mod_u.
+Lemma op_mod_u_trw_old : Trunc_rem_when in_u32 in_i32 op_mod_u_old.
 Proof.
-  intros n d r H Hd T Hr. apply trunc_remainder_val in T. subst r. unfold op_mod_u.
+  intros n d r H Hd T Hr. apply trunc_remainder_val in T. subst r. unfold op_mod_u_old.
   pose proof (u32_u64 d H). rewrite to_u64_id by assumption.
   rewrite op_mod_ul_val; [apply to_i32_id; assumption|assumption|assumption|cint; lia].
 Qed.
-Lemma op_mod_us_trw : Trunc_rem_when in_u16 in_i16 op_mod_us.
+Lemma op_mod_us_trw_old : Trunc_rem_when in_u16 in_i16 op_mod_us_old.
 Proof.
-  intros n d r H Hd T Hr. apply trunc_remainder_val in T. subst r. unfold op_mod_us.
+  intros n d r H Hd T Hr. apply trunc_remainder_val in T. subst r. unfold op_mod_us_old.
   assert (in_u64 d) by (cint; lia). rewrite to_u64_id by assumption.
   rewrite op_mod_ul_val; [cint'; lia|assumption|assumption|cint'; lia].
 Qed.
@@ -205,14 +205,14 @@ Proof.
     + rewrite (Z.abs_neq r) by lia. cint. lia.
     + rewrite (Z.abs_eq r) by lia. reflexivity.
 Qed.
-Lemma op_mod_u_wrap : forall n d, in_u32 d -> d <> 0 -> op_mod_u n d = to_i32 (Z.rem n d).
+Lemma op_mod_u_wrap_old : forall n d, in_u32 d -> d <> 0 -> op_mod_u_old n d = to_i32 (Z.rem n d).
 Proof.
-  intros n d H Hd. unfold op_mod_u. pose proof (u32_u64 d H). rewrite to_u64_id by assumption.
+  intros n d H Hd. unfold op_mod_u_old. pose proof (u32_u64 d H). rewrite to_u64_id by assumption.
   rewrite op_mod_ul_wrap by assumption. pose proof (rem_small n d Hd). rewrite to_i64_id by (cint; lia). reflexivity.
 Qed.
-Lemma op_mod_us_wrap : forall n d, in_u16 d -> d <> 0 -> op_mod_us n d = to_i16 (Z.rem n d).
+Lemma op_mod_us_wrap_old : forall n d, in_u16 d -> d <> 0 -> op_mod_us_old n d = to_i16 (Z.rem n d).
 Proof.
-  intros n d H Hd. unfold op_mod_us. assert (in_u64 d) by (cint; lia). rewrite to_u64_id by assumption.
+  intros n d H Hd. unfold op_mod_us_old. assert (in_u64 d) by (cint; lia). rewrite to_u64_id by assumption.
   rewrite op_mod_ul_wrap by assumption. pose proof (rem_small n d Hd). rewrite to_i64_id by (cint; lia). reflexivity.
 Qed.
 
@@ -259,12 +259,12 @@ Proof.
     split; [exists q; split; [reflexivity|lia]|]. destruct S1 as [S1|S1]; rewrite S1 in *; nia.
 Qed.
 
-Definition Percent_double_stmt : Prop :=
+Definition Percent_double_stmt_old : Prop :=
   forall n K s, 0 <= s -> let t := Z.quot K (2 ^ s) in t <> 0 -> Z.abs t < W64 ->
-    op_mod_dfrac n K s = round53 (to_i64 (Z.rem n t)).
-Lemma percent_double : Percent_double_stmt.
+    op_mod_dfrac_old n K s = round53 (to_i64 (Z.rem n t)).
+Lemma percent_double_old : Percent_double_stmt_old.
 Proof.
-  intros n K s Hs t Ht Hb. subst t. unfold op_mod_dfrac.
+  intros n K s Hs t Ht Hb. subst t. unfold op_mod_dfrac_old.
   assert (P : 0 < 2 ^ s) by (apply Z.pow_pos_nonneg; lia).
   destruct (Z.ltb_spec 0 K).
   - rewrite <- Z.quot_div_nonneg by lia.
@@ -279,23 +279,23 @@ Proof.
     rewrite op_mod_ul_wrap by (cint; lia). rewrite Z.rem_opp_r by lia. reflexivity.
 Qed.
 
-Lemma op_mod_d_wrap : forall n d, d <> 0 -> Z.abs d < W64 -> op_mod_d n d = round53 (to_i64 (Z.rem n d)).
+Lemma op_mod_d_wrap_old : forall n d, d <> 0 -> Z.abs d < W64 -> op_mod_d_old n d = round53 (to_i64 (Z.rem n d)).
 Proof.
-  intros n d Hd Hb. unfold op_mod_d. pose proof (percent_double n d 0 ltac:(lia)) as P. cbv zeta in P.
+  intros n d Hd Hb. unfold op_mod_d_old. pose proof (percent_double_old n d 0 ltac:(lia)) as P. cbv zeta in P.
   change (2 ^ 0) with 1 in P. rewrite Z.quot_1_r in P. apply P; assumption.
 Qed.
-Lemma op_mod_dx_wrap : forall n K, Z.quot K 16 <> 0 -> Z.abs (Z.quot K 16) < W64 ->
-  op_mod_dx n K = round53 (to_i64 (Z.rem n (Z.quot K 16))).
-Proof. intros n K H1 H2. unfold op_mod_dx. apply (percent_double n K 4 ltac:(lia)); assumption. Qed.
+Lemma op_mod_dx_wrap_old : forall n K, Z.quot K 16 <> 0 -> Z.abs (Z.quot K 16) < W64 ->
+  op_mod_dx_old n K = round53 (to_i64 (Z.rem n (Z.quot K 16))).
+Proof. intros n K H1 H2. unfold op_mod_dx_old. apply (percent_double_old n K 4 ltac:(lia)); assumption. Qed.
 
 (* integer-valued doubles of magnitude <= 2^53: everything is exact *)
-Lemma op_mod_d_val : forall n d, in_d53 d -> d <> 0 -> op_mod_d n d = Z.rem n d.
+Lemma op_mod_d_val_old : forall n d, in_d53 d -> d <> 0 -> op_mod_d_old n d = Z.rem n d.
 Proof.
-  intros n d H Hd. rewrite op_mod_d_wrap by (assumption || (cint'; lia)).
+  intros n d H Hd. rewrite op_mod_d_wrap_old by (assumption || (cint'; lia)).
   pose proof (rem_small n d Hd). rewrite to_i64_id by (cint'; lia). apply round53_small. cint'. lia.
 Qed.
-Lemma op_mod_d_tr : Trunc_rem in_d53 op_mod_d.
-Proof. intros n d H Hd. apply tr_of_val; [assumption|apply op_mod_d_val; assumption]. Qed.
+Lemma op_mod_d_tr_old : Trunc_rem in_d53 op_mod_d_old.
+Proof. intros n d H Hd. apply tr_of_val; [assumption|apply op_mod_d_val_old; assumption]. Qed.
 
 (* ------------------------------------------------------------------ `/` with `%`, divmod with mod (header warning) *)
 Definition Div_mod_pair_stmt : Prop :=
@@ -427,10 +427,10 @@ Definition Remainder_overloads_agree_stmt : Prop :=
     (in_i64 d -> op_mod_l n d = r /\ op_modeq_l n d = r) /\
     (in_u64 d -> op_modeq_ul n d = r /\ trem_ul n d = r /\ trem_w n d = Z.abs r /\ (in_i64 r -> op_mod_ul n d = r)) /\
     (in_i32 d -> op_mod_i n d = r /\ op_modeq_i n d = r) /\
-    (in_u32 d -> op_modeq_u n d = r /\ (in_i32 r -> op_mod_u n d = r)) /\
-    (in_u16 d -> in_i16 r -> op_mod_us n d = r) /\
+    (in_u32 d -> op_modeq_u n d = r /\ (in_i32 r -> op_mod_u_old n d = r)) /\
+    (in_u16 d -> in_i16 r -> op_mod_us_old n d = r) /\
     (in_i16 d -> op_mod_Ts n d = r) /\
-    (in_d53 d -> op_mod_d n d = r).
+    (in_d53 d -> op_mod_d_old n d = r).
 
 Lemma tr_val : forall n d r, trunc_remainder n d r -> r = Z.rem n d.
 Proof. exact trunc_remainder_val. Qed.
@@ -441,11 +441,11 @@ Proof.
     try (match goal with |- ?f n d = Z.rem n d => apply (tr_val n d) end;
          first [ apply op_mod_I_tr | apply op_modeq_I_tr | apply op_modeq_T_tr | apply trem_I_tr | apply w_mod_I_tr
                | apply op_mod_l_tr | apply op_modeq_l_tr | apply op_modeq_ul_tr | apply trem_ul_tr
-               | apply op_mod_i_tr | apply op_modeq_i_tr | apply op_modeq_u_tr | apply op_mod_Ts_tr | apply op_mod_d_tr ];
+               | apply op_mod_i_tr | apply op_modeq_i_tr | apply op_modeq_u_tr | apply op_mod_Ts_tr | apply op_mod_d_tr_old ];
          first [ exact I | assumption ]).
   - apply op_mod_ul_val; assumption.
-  - apply (op_mod_u_trw n d); [assumption|assumption|apply tr_of_val; [assumption|reflexivity]|assumption].
-  - apply (op_mod_us_trw n d); [assumption|assumption|apply tr_of_val; [assumption|reflexivity]|assumption].
+  - apply (op_mod_u_trw_old n d); [assumption|assumption|apply tr_of_val; [assumption|reflexivity]|assumption].
+  - apply (op_mod_us_trw_old n d); [assumption|assumption|apply tr_of_val; [assumption|reflexivity]|assumption].
 Qed.
 
 Definition Mod_overloads_agree_stmt : Prop :=
@@ -491,6 +491,78 @@ Proof.
 Qed.
 
 (* hypotheses are satisfiable / the statements say something: the boundary divisors *)
+(* ------------------------------------------------------------------ the bodies as repaired (e502f6c, 2c6554a) *)
+Lemma op_mod_u_val : forall n d, in_u32 d -> d <> 0 -> op_mod_u n d = Z.rem n d.
+Proof.
+  intros n d H Hd. unfold op_mod_u. pose proof (u32_u64 d H). rewrite to_u64_id by assumption.
+  apply op_mod_ul_val; [assumption|assumption|]. pose proof (rem_small n d Hd). cint. lia.
+Qed.
+Lemma op_mod_u_tr : Trunc_rem in_u32 op_mod_u.
+Proof. intros n d H Hd. apply tr_of_val; [assumption|apply op_mod_u_val; assumption]. Qed.
+Lemma op_mod_us_val : forall n d, in_u16 d -> d <> 0 -> op_mod_us n d = Z.rem n d.
+Proof.
+  intros n d H Hd. unfold op_mod_us. assert (in_u64 d) by (cint; lia). rewrite to_u64_id by assumption.
+  pose proof (rem_small n d Hd). rewrite op_mod_ul_val by (assumption || (cint; lia)). cint. lia.
+Qed.
+Lemma op_mod_us_tr : Trunc_rem in_u16 op_mod_us.
+Proof. intros n d H Hd. apply tr_of_val; [assumption|apply op_mod_us_val; assumption]. Qed.
+
+(* Integer -> double towards zero *)
+Lemma trunc53_small : forall z, Z.abs z <= 9007199254740992 -> trunc53 z = z.
+Proof.
+  intros z H. unfold trunc53. cbv zeta. destruct (Z.ltb_spec (Z.abs z) 9007199254740992); [reflexivity|].
+  assert (A : Z.abs z = 9007199254740992) by lia.
+  destruct z as [|p|p]; cbn [Z.abs] in A; try discriminate; injection A as ->; vm_compute; reflexivity.
+Qed.
+(* never larger in magnitude, never of the other sign, less than one last-place unit away *)
+Lemma trunc53_toward_zero : forall z, Z.abs (trunc53 z) <= Z.abs z /\ 0 <= z * trunc53 z /\
+  (9007199254740992 <= Z.abs z -> Z.abs z - Z.abs (trunc53 z) < 2 ^ (Z.log2 (Z.abs z) - 52) /\ exists m, trunc53 z = m * 2 ^ (Z.log2 (Z.abs z) - 52)).
+Proof.
+  intros z. unfold trunc53. cbv zeta. destruct (Z.ltb_spec (Z.abs z) 9007199254740992) as [L|L].
+  - split; [lia|]. split; [nia|]. intro. lia.
+  - set (k := Z.log2 (Z.abs z) - 52).
+    assert (Lg : 53 <= Z.log2 (Z.abs z)) by (apply (Z.log2_le_mono (2 ^ 53)); exact L).
+    assert (P : 0 < 2 ^ k) by (apply Z.pow_pos_nonneg; subst k; lia).
+    pose proof (Z.div_mod (Z.abs z) (2 ^ k) ltac:(lia)) as DM. pose proof (Z.mod_pos_bound (Z.abs z) (2 ^ k) P) as MB.
+    remember (Z.abs z / 2 ^ k) as q. remember (Z.abs z mod 2 ^ k) as r. remember (2 ^ k) as u.
+    assert (Q0 : 0 <= q) by (subst q; apply Z.div_pos; lia).
+    assert (Q : 0 <= q * u) by nia.
+    assert (S1 : (Z.sgn z = 1 /\ z = Z.abs z) \/ (Z.sgn z = -1 /\ z = - Z.abs z)) by (destruct z; cbn [Z.sgn Z.abs] in *; lia).
+    assert (DM' : Z.abs z = q * u + r) by lia.
+    remember (q * u) as w. remember (Z.abs z) as a.
+    destruct S1 as [(S & Ez)|(S & Ez)]; rewrite S; (split; [lia|]); (split; [rewrite Ez; nia|]); intros _; (split; [lia|]); subst w.
+    + exists q. ring.
+    + exists (- q). ring.
+Qed.
+
+Definition Percent_double_stmt : Prop :=
+  forall n K s, 0 <= s -> let t := Z.quot K (2 ^ s) in t <> 0 ->
+    let res := op_mod_dfrac n K s in
+    res = trunc53 (Z.rem n t) /\ Z.abs res < Z.abs t /\ 0 <= n * res /\ (trunc53 (Z.rem n t) = Z.rem n t -> trunc_remainder n t res).
+Lemma percent_double : Percent_double_stmt.
+Proof.
+  intros n K s Hs t Ht res. subst res. unfold op_mod_dfrac. fold t. rewrite op_mod_I_val.
+  destruct (tspec n t Ht) as (E & B & S). unfold tquo, trem in *.
+  destruct (trunc53_toward_zero (Z.rem n t)) as (T1 & T2 & _).
+  split; [reflexivity|]. split; [lia|]. split.
+  - remember (Z.rem n t) as r. remember (trunc53 r) as w. clear Heqr Heqw E.
+    destruct (Z.eq_dec r 0) as [->|Hr]; [assert (w = 0) by lia; subst; lia|].
+    assert ((0 < r /\ 0 <= w /\ 0 <= n) \/ (r < 0 /\ w <= 0 /\ n <= 0)) by nia. nia.
+  - intro Ex. rewrite Ex. apply tr_of_val; [assumption|reflexivity].
+Qed.
+Lemma op_mod_d_val : forall n d, d <> 0 -> op_mod_d n d = trunc53 (Z.rem n d).
+Proof.
+  intros n d Hd. unfold op_mod_d. pose proof (percent_double n d 0 ltac:(lia)) as P. cbv zeta in P.
+  change (2 ^ 0) with 1 in P. rewrite Z.quot_1_r in P. apply P; assumption.
+Qed.
+Lemma op_mod_dx_val : forall n K, Z.quot K 16 <> 0 -> op_mod_dx n K = trunc53 (Z.rem n (Z.quot K 16)).
+Proof. intros n K H1. unfold op_mod_dx. apply (percent_double n K 4 ltac:(lia)); assumption. Qed.
+Lemma op_mod_d_tr : Trunc_rem in_d53 op_mod_d.
+Proof.
+  intros n d H Hd. apply tr_of_val; [assumption|]. rewrite op_mod_d_val by assumption. apply trunc53_small.
+  pose proof (rem_small n d Hd). cint'. lia.
+Qed.
+
 Example divmod_l_int64_min : divmod_l (-1) (- H64) = (1, H64 - 1) /\ divmod_l (W64) (- H64) = (-2, 0)
   /\ op_mod_l (-(10^30)) (- H64) = Z.rem (-(10^30)) (- H64) /\ op_mod_ul (-(W64 - 2)) (W64 - 1) = 2 (* not representable: wraps *).
 Proof. vm_compute. repeat split; reflexivity. Qed.
